@@ -59,7 +59,7 @@ def run_pls(ck, rng, tier, which):
         elif corner == 2 and m >= 2:
             X[:, 1] = X[:, 0] + 1e-3 * X[:, 0].std() * np.array([rng.gauss(0, 1) for _ in range(n)])
         elif corner == 3:
-            X[:, 0], xs = X[:, 0] * 1e-4, rng.choice((-1, 0))
+            X[:, 0], xs = X[:, 0] * (1e-6 if c % 16 == 11 else 1e-4), rng.choice((-1, 0))
         elif corner == 4:
             Y, ys = (Y - Y.mean(axis=0)) * 1e-3 / (np.abs(Y - Y.mean(axis=0)).max() + 1e-300) + Y.mean(axis=0) * 1e-3, rng.choice((-1, 0))
         elif corner == 6 and c < 16:
